@@ -124,7 +124,8 @@ def _rf_v2(prop, case, f):
 @pred("row-filter-not-in-pruning")
 def _rf_notin(prop, case, f):
     # same mechanism as not-in-filter-prunes-when-a-chunk-bound-is-listed, seen through the row filter's first pass
-    return prop == "C13" and f.get("kind") == "qualifying_row_not_returned" and "not in" in (f.get("ops") or [])
+    return (prop == "C13" and f.get("kind") == "qualifying_row_not_returned" and "not in" in (f.get("ops") or [])
+            and f.get("every_lost_row_in_a_group_whose_bound_is_in_a_not_in_list") is True)
 
 
 @pred("row-filter-constants-with-nul")
